@@ -162,9 +162,11 @@ theorem parseBigInt_intDigits {r : Nat} (h2 : 2 ≤ r) (h36 : r ≤ 36) (n : Int
   by_cases hneg : n < 0
   · simp only [hneg, if_true]
     unfold parseBigInt
+    simp only
     rw [hcs, afterMinus_of_ne hp, ← hcs, hpn]
-    show some (-((n.natAbs : Nat) : Int)) = some n
+    show some (-(Int.ofNat n.natAbs)) = some n
     congr 1
+    rw [Int.ofNat_eq_natCast]
     omega
   · simp only [hneg, if_false]
     unfold parseBigInt
@@ -172,8 +174,164 @@ theorem parseBigInt_intDigits {r : Nat} (h2 : 2 ≤ r) (h36 : r ≤ 36) (n : Int
     split
     · rename_i heq; simp only [List.cons.injEq] at heq; exact absurd heq.1 hm
     · rw [← hcs, hpn]
-      show some (((n.natAbs : Nat) : Int)) = some n
+      show some (Int.ofNat n.natAbs) = some n
       congr 1
+      rw [Int.ofNat_eq_natCast]
       omega
+
+/-! ## spellings that are *not* integers: a character that is no digit makes every integer
+parser fail; `/` splits a ratio spelling -/
+
+theorem digitsVal_fail (r : Nat) {c : Char} (hc : toDigit r c = none) :
+    ∀ (cs : Text) (acc : Nat), c ∈ cs → digitsVal r acc cs = none := by
+  intro cs
+  induction cs with
+  | nil => intro acc h; simp at h
+  | cons x xs ih =>
+    intro acc h
+    simp only [digitsVal]
+    rcases List.mem_cons.mp h with rfl | h
+    · rw [hc]
+    · cases toDigit r x with
+      | none => rfl
+      | some d => exact ih _ h
+
+theorem bigDigitsVal_fail (r : Nat) {c : Char} (hc : toDigit r c = none) (hu : c ≠ '_') :
+    ∀ (cs : Text) (acc : Nat), c ∈ cs → bigDigitsVal r acc cs = none := by
+  intro cs
+  induction cs with
+  | nil => intro acc h; simp at h
+  | cons x xs ih =>
+    intro acc h
+    simp only [bigDigitsVal]
+    rcases List.mem_cons.mp h with rfl | h
+    · simp only [hu, if_false]; rw [hc]
+    · split
+      · exact ih _ h
+      · cases toDigit r x with
+        | none => rfl
+        | some d => exact ih _ h
+
+theorem parseNat_fail (r : Nat) {c : Char} (hc : toDigit r c = none) (cs : Text) (h : c ∈ cs) :
+    parseNat r cs = none := by
+  unfold parseNat
+  cases cs with
+  | nil => rfl
+  | cons x xs => exact digitsVal_fail r hc _ _ h
+
+theorem parseIntStd_fail (inR : Int → Bool) (r : Nat) {c : Char} (hc : toDigit r c = none)
+    (hp : c ≠ '+') (hm : c ≠ '-') (s : Text) (h : c ∈ s) : parseIntStd inR r s = none := by
+  cases s with
+  | nil => simp at h
+  | cons x rest =>
+    cases rest with
+    | nil =>
+      simp only [List.mem_singleton] at h
+      subst h
+      simp only [parseIntStd, hp, hm, or_self, if_false]
+      rw [parseNat_fail r hc _ (by simp)]
+    | cons y ys =>
+      simp only [parseIntStd]
+      by_cases hxp : x = '+'
+      · have : c ∈ y :: ys := by
+          rcases List.mem_cons.mp h with h | h
+          · exact absurd (h.trans hxp) hp
+          · exact h
+        simp only [hxp, if_true]
+        rw [parseNat_fail r hc _ this]
+      · by_cases hxm : x = '-'
+        · have : c ∈ y :: ys := by
+            rcases List.mem_cons.mp h with h | h
+            · exact absurd (h.trans hxm) hm
+            · exact h
+          simp only [hxm, show ('-' : Char) ≠ '+' by decide, if_false, if_true]
+          rw [parseNat_fail r hc _ this]
+        · simp only [hxp, hxm, if_false]
+          rw [parseNat_fail r hc _ h]
+
+theorem parseBigUint_fail (r : Nat) {c : Char} (hc : toDigit r c = none) (hp : c ≠ '+')
+    (hu : c ≠ '_') (s : Text) (h : c ∈ s) : parseBigUint r s = none := by
+  unfold parseBigUint
+  have hmem : c ∈ stripPlus s := by
+    unfold stripPlus
+    split
+    · rename_i tail
+      split
+      · exact h
+      · rcases List.mem_cons.mp h with h | h
+        · exact absurd h hp
+        · exact h
+    · exact h
+  cases hs : stripPlus s with
+  | nil => rfl
+  | cons x xs =>
+    simp only
+    split
+    · rfl
+    · rw [hs] at hmem
+      exact bigDigitsVal_fail r hc hu _ _ hmem
+
+theorem parseBigInt_fail (r : Nat) {c : Char} (hc : toDigit r c = none) (hp : c ≠ '+')
+    (hm : c ≠ '-') (hu : c ≠ '_') (s : Text) (h : c ∈ s) : parseBigInt r s = none := by
+  unfold parseBigInt
+  split
+  · rename_i tail
+    have h1 : c ∈ tail := by
+      rcases List.mem_cons.mp h with h | h
+      · exact absurd h hm
+      · exact h
+    have h2 : c ∈ afterMinus tail := by
+      unfold afterMinus
+      split
+      · exact List.mem_cons_of_mem _ h1
+      · exact h1
+    rw [parseBigUint_fail r hc hp hu _ h2]
+  · rw [parseBigUint_fail r hc hp hu _ h]
+
+theorem splitSlash_append (a b : Text) (ha : ∀ x ∈ a, x ≠ '/') :
+    splitSlash (a ++ '/' :: b) = some (a, b) := by
+  induction a with
+  | nil => simp [splitSlash]
+  | cons x xs ih =>
+    have hx : x ≠ '/' := ha x (by simp)
+    simp only [List.cons_append, splitSlash, hx, if_false]
+    rw [ih (fun y hy => ha y (by simp [hy]))]
+
+theorem splitSlash_none (s : Text) (h : ∀ x ∈ s, x ≠ '/') : splitSlash s = none := by
+  induction s with
+  | nil => rfl
+  | cons x xs ih =>
+    have hx : x ≠ '/' := h x (by simp)
+    simp only [splitSlash, hx, if_false]
+    rw [ih (fun y hy => h y (by simp [hy]))]
+
+theorem intDigits_chars {r : Nat} (h2 : 2 ≤ r) (n : Int) :
+    ∀ c ∈ intDigits r n, c = '-' ∨ ∃ d, d < r ∧ c = digitChar d := by
+  intro c hc
+  unfold intDigits at hc
+  split at hc
+  · rcases List.mem_cons.mp hc with h | h
+    · exact .inl h
+    · exact .inr (natDigits_chars h2 _ c h)
+  · exact .inr (natDigits_chars h2 _ c hc)
+
+theorem intDigits_no_slash {r : Nat} (h2 : 2 ≤ r) (h36 : r ≤ 36) (n : Int) :
+    ∀ c ∈ intDigits r n, c ≠ '/' := by
+  intro c hc
+  rcases intDigits_chars h2 n c hc with rfl | ⟨d, hd, rfl⟩
+  · decide
+  · exact (digitChar_plain d (by omega)).2.2.2.1
+
+theorem toDigit_slash (r : Nat) : toDigit r '/' = none := by
+  unfold toDigit
+  have : digitVal '/' = none := by decide
+  rw [this]
+
+theorem toDigit_dot (r : Nat) : toDigit r '.' = none := by
+  unfold toDigit
+  have : digitVal '.' = none := by decide
+  rw [this]
+
+theorem toDigit_e_10 : toDigit 10 'e' = none := by decide
 
 end Marwood
